@@ -571,17 +571,92 @@ func c18Term(p *Prog, rp *Report, fns []*ssa.Function, cursorFns map[*ssa.Functi
 		}
 	}
 	allowedRec := map[string]string{
-		"control.decodeStruct":           "descends one level of pointer / struct nesting per call (finite type depth)",
-		"control.decodeStructValue":      "descends slice element / struct nesting of the target type",
-		"control.decodeStructValueSlice": "via decodeStructValue on the element type",
-		"control.decode":                 "via decodeSlice / decodeStruct on the target type",
-		"(*dependency.Arch).Is":          "swaps operands once: the recursive call has a non-wildcard receiver",
+		"(*dependency.Arch).Is": "swaps operands once: the recursive call has a non-wildcard receiver",
 	}
-	for name := range rec {
+	isReflectValue := func(t types.Type) bool { return types.TypeString(t, nil) == "reflect.Value" }
+	// structural recursion over reflected values: every function on a cycle takes a reflect.Value, and no cycle
+	// consists only of calls that hand the caller's own reflected value on unchanged (some call on the way round
+	// passes v.Elem(), v.Field(i), v.Index(i), a new element, ...): the recursion follows the finite nesting of
+	// the caller's type
+	byName := map[string]*ssa.Function{}
+	for _, fn := range fns {
+		byName[fname(fn)] = fn
+	}
+	unchanged := map[*ssa.Function][]*ssa.Function{} // edges that pass the own value on unchanged
+	for _, fn := range fns {
+		if !rec[fname(fn)] {
+			continue
+		}
+		var own []ssa.Value
+		for _, prm := range fn.Params {
+			if isReflectValue(prm.Type()) {
+				own = append(own, prm)
+			}
+		}
+		for _, c := range allCalls(fn) {
+			callee := c.Common().StaticCallee()
+			if callee == nil || !rec[fname(callee)] {
+				continue
+			}
+			same := false
+			hasRV := false
+			for _, a := range c.Common().Args {
+				if !isReflectValue(a.Type()) {
+					continue
+				}
+				hasRV = true
+				for _, o := range own {
+					if a == o {
+						same = true
+					}
+				}
+			}
+			if same || !hasRV {
+				unchanged[fn] = append(unchanged[fn], callee)
+			}
+		}
+	}
+	onUnchangedCycle := func(start *ssa.Function) bool {
+		seen := map[*ssa.Function]bool{}
+		var walk func(f *ssa.Function) bool
+		walk = func(f *ssa.Function) bool {
+			for _, g := range unchanged[f] {
+				if g == start {
+					return true
+				}
+				if !seen[g] {
+					seen[g] = true
+					if walk(g) {
+						return true
+					}
+				}
+			}
+			return false
+		}
+		return walk(start)
+	}
+	for _, fn := range fns {
+		name := fname(fn)
+		if !rec[name] {
+			continue
+		}
 		if reason, ok := allowedRec[name]; ok {
 			r.ok(name+":recursion", "", reason)
-		} else {
-			r.bad(name+":recursion", "", "recursive function without a recorded termination argument", nil)
+			continue
+		}
+		hasRV := false
+		for _, prm := range fn.Params {
+			if isReflectValue(prm.Type()) {
+				hasRV = true
+			}
+		}
+		switch {
+		case !hasRV:
+			r.bad(name+":recursion", p.Pos(fn.Pos()), "recursive function without a recorded termination argument", nil)
+		case onUnchangedCycle(fn):
+			r.bad(name+":recursion", p.Pos(fn.Pos()), "the function can call itself again (directly or through its helpers) with the very reflected value it was given: nothing gets smaller on the way round", nil)
+		default:
+			r.ok(name+":recursion", p.Pos(fn.Pos()), "structural recursion over reflected values: on every way back to this function some call passes a component (Elem, Field, Index, a new element), never only the value itself")
 		}
 	}
 }
